@@ -39,6 +39,10 @@ MAX_IN_NODES = 30
 GEOMETRY_RULES = {"x", "x_component", "x_square", "x_sin", "grad_grad_x", "jacobian", "jacobian_inverse", "detJ",
                   "detJ_only", "facet_normal", "circumradius", "cell_volume", "constant", "constant_vec",
                   "dg0_coefficient", "literal", "zero_shortcut"}
+# the lowering of the differential operators is written per dimension / per component: always traced on every cell
+OPERATOR_RULES = {"curl_scalar", "curl_vec2", "curl_curl2", "curl_vec3", "curl_curl3", "div_curl", "curl_grad", "cross",
+                  "curl_inner", "curl_list", "perp", "laplace", "div_vec", "div_tensor", "nabla_div_tensor", "nabla_grad_s",
+                  "nabla_grad_v", "grad_div", "dx_fixed", "dx_free", "vector_terminal", "grad_grad"}
 
 
 def pipeline(e):
@@ -202,7 +206,8 @@ def rule_cases(cell):
         L += [("curl_scalar", lambda: curl(f * h)), ("curl_vec2", lambda: curl(f * v)), ("curl_curl2", lambda: curl(curl(f * h))),
               ("perp", lambda: div(ufl.perp(v) * f)), ("det2", lambda: grad(ufl.det(grad(v))))]
     if g == 3:
-        L += [("curl_vec3", lambda: curl(f * v)), ("curl_curl3", lambda: curl(curl(v))), ("div_curl", lambda: div(curl(f * v))),
+        L += [("curl_vec3", lambda: curl(f * v)), ("curl_inner", lambda: ufl.inner(curl(v), u)),
+              ("curl_list", lambda: curl(ufl.as_vector([f, 0, h * w]))), ("curl_curl3", lambda: curl(curl(v))), ("div_curl", lambda: div(curl(f * v))),
               ("cross", lambda: div(ufl.cross(v, u))), ("curl_grad", lambda: curl(grad(f * h)))]
     out = []
     for nm, build in L:
@@ -500,7 +505,7 @@ def main(run):
         for cell in ("interval", "tetrahedron"):
             rc = rule_cases(cell)
             for k, (nm, e, gen, err) in enumerate(rc):
-                if err is not None or k % 10 == 0 or nm.rsplit("_", 1)[0] in GEOMETRY_RULES:
+                if err is not None or k % 10 == 0 or nm.rsplit("_", 1)[0] in GEOMETRY_RULES | OPERATOR_RULES:
                     add_rule(nm, e, gen, err, cell, 4)
     for cell in ("interval", "triangle", "tetrahedron"):
         for name, cs, err in ctor_cases(cell, rng0):
